@@ -76,6 +76,37 @@ func (wb *WriteBuffer) Flush() (*BlockHeader, []byte, error) {
 	wb.mu.Lock()
 	defer wb.mu.Unlock()
 
+	header, compressed, err := wb.buildBlockLocked()
+	if err != nil || header == nil {
+		return header, compressed, err
+	}
+
+	// Clear buffer
+	wb.entries = wb.entries[:0]
+	wb.currentSize = 0
+
+	return header, compressed, nil
+}
+
+// Peek builds the block exactly as Flush does but leaves the entries in the
+// buffer. The file writer uses it together with Clear so that the entries are
+// only dropped once the block has really been written to the file.
+func (wb *WriteBuffer) Peek() (*BlockHeader, []byte, error) {
+	wb.mu.Lock()
+	defer wb.mu.Unlock()
+	return wb.buildBlockLocked()
+}
+
+// Clear drops all buffered entries.
+func (wb *WriteBuffer) Clear() {
+	wb.mu.Lock()
+	defer wb.mu.Unlock()
+	wb.entries = wb.entries[:0]
+	wb.currentSize = 0
+}
+
+// buildBlockLocked serializes and compresses the buffered entries (lock must be held).
+func (wb *WriteBuffer) buildBlockLocked() (*BlockHeader, []byte, error) {
 	if len(wb.entries) == 0 {
 		return nil, nil, nil
 	}
@@ -97,10 +128,6 @@ func (wb *WriteBuffer) Flush() (*BlockHeader, []byte, error) {
 		Checksum:         CalculateChecksum(compressed),
 		Flags:            0,
 	}
-
-	// Clear buffer
-	wb.entries = wb.entries[:0]
-	wb.currentSize = 0
 
 	return header, compressed, nil
 }
